@@ -1178,13 +1178,16 @@ class Context(object):
                 pass
         return command
 
-    def let(self, dest, source):
+    def let(self, dest, source, local=True):
         """
         Create a \\let
 
         Required Arguments:
         dest -- the command sequence to create
         source -- the token to set the command sequence equivalent to
+
+        Keyword Arguments:
+        local -- indicates whether this is a local or a \\global assignment
 
         Examples::
             c.let('bgroup', BeginGroup('{'))
@@ -1194,9 +1197,19 @@ class Context(object):
         # EscapeSequence, e.g. when we do
         # \expandafter\let\csname foo\endcsname=1
         if source.catcode == Token.CC_ESCAPE:
-            self.top[dest.nodeName] = self[source.nodeName]
+            value = self[source.nodeName]
+        if local:
+            target = self.top
         else:
-            self.top.lets[dest.nodeName] = source
+            # A global assignment replaces the meaning at every group level
+            for context in self.contexts[1:]:
+                context.pop(dest.nodeName, None)
+                context.lets.pop(dest.nodeName, None)
+            target = self.contexts[0]
+        if source.catcode == Token.CC_ESCAPE:
+            target[dest.nodeName] = value
+        else:
+            target.lets[dest.nodeName] = source
 
     def chardef(self, name, num):
         """
